@@ -30,6 +30,12 @@ CHECKS["C07"] = dict(category="model_checking", technique="TLA+ PageSpec reader 
 CHECKS["C17"] = dict(category="model_checking", technique="TLA+ PageSpec reader model (PropFresh) checked exhaustively by TLC with every edge replayed on the real PagedReader; Trace_C17 validation of exhaustive file-level operation sequences",
    text="The only state shared between read operations is the page reader: its model is searched exhaustively (all histories incl. failures on altered pages) with the property that every read returns what an empty-cache reader would, each edge replayed on the real type with per-page cache probes. At file level every sequence of operations up to depth 2/3 (complete and partly consumed raw/simple iterations, blobs, xml, listings) on pristine, page-damaged and section-damaged real files is run on one reader and compared with fresh readers; TLC validates the comparison classes.",
    note="Trusts TLC, PageSpec, harness recording (classes are byte comparisons of canonical result text).", ref="6 C17")
+CHECKS["C15"] = dict(category="fault_enumeration", technique="recorded device write sequences cut at every prefix and torn position, judged by TLC against the commit-ordering specification Trace_C15",
+   text="For each writer program (with and without the top-level finalize, section headers straddling page boundaries) the device write sequence is recorded and every prefix image plus torn cuts of the next write (every cut of the final header patch in quick, every cut of every write in thorough) is opened with the real reader; TLC requires: accepted => finalize had started, listing incl. header equals the completed file's, every read operation fails or equals the completed file's result.",
+   note="Assumes writes reach the device in issue order (as the property states). Trusts TLC, the recording device and the byte comparisons made by the harness.", ref="6 C15")
+CHECKS["C16"] = dict(category="fault_enumeration", technique="exhaustive single-fault injection over the device operation sequence and short-transfer schedules, validated by TLC against Trace_C16; chunked runs re-judged by the file-level TLA+ decoder",
+   text="For each writer and reader program a fault-free run counts the device operations; the program is re-run once per operation index (reads, writes, seeks, flushes) with an error injected there: the call in progress must return Err, no panic, finalize Ok only if the write-back device holds the complete file. Short-transfer schedules (incl. 1-byte transfers) must give byte-identical files and identical read results; chunked runs are also decoded by the TLA+ decoder.",
+   note="Single fault per run; behaviour after a failed call is not constrained; a fault inside a destructor cannot be reported. Trusts TLC and the instrumented device.", ref="6 C16")
 NOT_APPLICABLE = {}
 
 def main():
